@@ -171,6 +171,13 @@ def inverse_topology(outer, update, topology, inverse=None, multi_updates=True):
 
     inverse = inverse or {}
 
+    if isinstance(update, dict) and '*' not in topology:
+        # ports and variables that the topology does not name are wired
+        # to a node of their own name (as the store wires them)
+        unnamed = [key for key in update if key not in topology]
+        if unnamed:
+            topology = dict(topology, **{key: (key,) for key in unnamed})
+
     for key, path in topology.items():
         if key == '*':
             if isinstance(path, dict):
@@ -217,11 +224,16 @@ def inverse_topology(outer, update, topology, inverse=None, multi_updates=True):
                     path = path.copy()
                     inner = normalize_path(outer + path.pop('_path'))
 
+                else:
+                    path = path.copy()
+                    inner = outer
+
+                # variables the topology does not name are wired to a
+                # node of their own name (as the store wires them)
+                if isinstance(update[key], dict):
                     for update_key in update[key].keys():
                         if update_key not in path and '*' not in path:
                             path[update_key] = (update_key,)
-                else:
-                    inner = outer
 
                 inverse = inverse_topology(
                     inner,
